@@ -14,7 +14,7 @@ import qgen
 from cprop import CompilerProp
 
 ID = "C04"
-LEAN_MODULES = ["FaxVerif.C04.Theorems", "FaxVerif.C04.TheoremsLazy"]
+LEAN_MODULES = ["FaxVerif.C04.Theorems", "FaxVerif.C04.TheoremsLazy", "FaxVerif.C04.TheoremsFault"]
 LEAN_SOURCES = ["FaxVerif/C04", "FaxVerif/Gen", "FaxVerif/Cpp", "FaxVerif/Linq"]
 DRIVER = cgroup.DRIVER
 SETUP_MODULES = cgroup.DRIVER_IMPORTS + ["FaxVerif.Gen.Lazy"]  # what the drivers import
@@ -36,6 +36,17 @@ THEOREMS = [
     "FaxVerif.C04.event_first_empty_loud",
     "FaxVerif.C04.guarded_first_safe",
     "FaxVerif.C04.guarded_package_correct",
+    "FaxVerif.C04.elemRows_fault_partial",
+    "FaxVerif.C04.elemRows_faults_equal_partial",
+    "FaxVerif.C04.elemRows_defined_iff",
+    "FaxVerif.C04.eventRows_fault_partial",
+    "FaxVerif.C04.eventRows_faults_equal_partial",
+    "FaxVerif.C04.eventRows_defined_iff",
+    "FaxVerif.C04.event_first_empty_loud_all_backends",
+    "FaxVerif.C04.no_stale_row",
+    "FaxVerif.C04.job_stops_at_first_undefined_event",
+    "FaxVerif.C04.count_unforced_select_counterexample",
+    "FaxVerif.C04.first_later_fault_counterexample",
     "FaxVerif.C04.lazy_expr_faults_equal",
     "FaxVerif.C04.lazy_expr_faults_equal_null",
     "FaxVerif.C04.bop_guard_protects",
@@ -58,6 +69,14 @@ TRUSTED_BASE = [
 ]
 ASSUMPTIONS = ["null links and the poisoned-null oracle of the DESIGN are not exercised: isNonnull is injected C++ (opaque to the model); C11 covers its substitution"]
 LEVEL_TEXT = (
+    "PACKAGE-LEVEL fault equivalence for the translator model (fragment F0-lite, all three backends): the emitted package returns rows "
+    "for an event exactly when the query is defined there (elemRows_defined_iff, eventRows_defined_iff; no_stale_row), an undefined "
+    "event makes it fail with a fault of the same class — the missing bank's retrieveFailed, a member fault of an element of that "
+    "bank, or the loud `First() of an empty sequence` — in the same column and chain (elemRows_fault_partial, eventRows_fault_partial; "
+    "the very same fault when the element faults are uniform: *_faults_equal_partial), and a job stops at the first undefined event "
+    "having written exactly the rows of the events before it (job_stops_at_first_undefined_event). Hypothesis strictSteps: the value of "
+    "every projection is consumed (the emitted code evaluates a projection only where its value is used; the eager reference semantics "
+    "evaluates it for every element — count_unforced_select_counterexample, first_later_fault_counterexample show the hypothesis is needed). "
     "Lean 4 theorems about the emitted shapes, for all element lists, conditions and states: First() captures exactly the first kept "
     "element and fails loudly iff the sequence is empty after its filters (first_idiom; END TO END for the translator model on "
     "event-level rows: event_first_empty_loud — the whole emitted package fails loudly, from any admissible class state, on an "
